@@ -225,7 +225,7 @@ func (e Encoder) AppendInts64(dst []byte, vals []int64) []byte {
 
 // AppendUint encodes and inserts an unsigned integer value into the dst byte array.
 func (e Encoder) AppendUint(dst []byte, val uint) []byte {
-	return e.AppendInt64(dst, int64(val))
+	return e.AppendUint64(dst, uint64(val))
 }
 
 // AppendUints encodes and inserts an array of unsigned integer values into the dst byte array.
